@@ -1590,7 +1590,10 @@ impl<'s> Runner<'s> {
                             tls(|t| t.verifier_log.clear());
                         }
                         if !o.is_ok() {
-                            return Err(self.c10("history-dependent-result/set_program".into(), at, format!("the {}th identical set_program(prog#{}) in a row returned {}", k, pid, o.short())));
+                            // stop repeating: the call below is judged like any other load (an
+                            // implementation may refuse what the verifier accepts, if a fresh VM does too)
+                            self.counters.inc("set_program_repetition_cut_short");
+                            break;
                         }
                     }
                     self.counters.add("set_program_repeated_calls", repeat as u64 - 1);
